@@ -272,6 +272,8 @@ class TemplatedType:
         self.is_shared_ptr = is_shared_ptr
         self.is_ptr = is_ptr
         self.is_ref = is_ref
+        # A templated type is never a basic type (`Type` has the same attribute).
+        self.is_basic = False
 
     @staticmethod
     def from_parse_result(t: ParseResults):
